@@ -126,7 +126,10 @@ def modules():
 
 def run(argv):
     """run `mchap <prog> ...` in-process; returns stdout text"""
-    return synth.run_prog(modules()[argv[1]], argv)
+    from . import env
+
+    with env.app_warnings():
+        return synth.run_prog(modules()[argv[1]], argv)
 
 
 def records(text):
